@@ -28,7 +28,9 @@ func main() {
 	case "vc":
 		cmdVC(os.Args[2:])
 	case "check":
-		os.Exit(cmdCheck(os.Args[2:]))
+		rc := cmdCheck(os.Args[2:])
+		pprof.StopCPUProfile()
+		os.Exit(rc)
 	case "replay":
 		os.Exit(cmdReplay(os.Args[2:]))
 	default:
